@@ -197,11 +197,16 @@ def _cs20(pm, v):
 
 # ---- CPR (C03-C06) ----
 def _ts(v):
+    """time stamps as passed to the library.  t0/t1 are integers for TLC (only their order matters); `tq` = 1 means they
+    count quarter seconds (so that both stamps can fall into the same whole second), `dt` = 1 passes datetimes."""
     t0, t1 = v["t0"], v["t1"]
+    q = 4.0 if v.get("tq") else 1.0
     if v.get("dt"):
         import datetime
         base = datetime.datetime(2020, 1, 1)
-        return base + datetime.timedelta(seconds=t0), base + datetime.timedelta(seconds=t1)
+        return base + datetime.timedelta(seconds=t0 / q), base + datetime.timedelta(seconds=t1 / q)
+    if v.get("tq"):
+        return t0 / q, t1 / q
     return t0, t1
 
 
